@@ -187,7 +187,7 @@ static void judge_panic(Ctx& ctx, const Cfg& c, bool forward, bool hs, bool judg
   std::string site = std::string(c.exact() ? "exact" : "series") + (forward ? "-forward" : "-reverse");
   // lead's decision: Newton exhausting its iterations at the equator within a few ulp of the branch point (REF unavailable there,
   // the round trip law still applies) is recorded, not judged
-  if (at_branch_point) ctx.event("hook: convergence failure (panic) in " + site + " within 2e-9 deg of the branch point on the equator");
+  if (at_branch_point) ctx.event("hook: convergence failure (panic) in " + site + " within 2e-8 deg of the branch point");
   else if (c.largef) ctx.event("hook: convergence failure (panic) in " + site + " on a large-f rung");
   else if (hs) ctx.event("hook: convergence failure (panic) in " + site + " at an extendp-high-scale point");
   else if (!judged_domain) ctx.event("hook: convergence failure (panic) in " + site + " outside the judged domain");
@@ -221,12 +221,13 @@ static void check_point(Ctx& ctx, const Cfg& c, double lon0, double lat, double 
   const std::string kind = c.exact() ? "exact" : "series";
   double ad = (double)fabsq(dlon), br = c.branch_deg();
   bool extsheet = c.ext() && lat < 0;                    // extendp: no north/south folding
-  const bool hs = extsheet && !(k / c.k0 <= HS_K);
+  // high scale: by the returned k, or (robust against a garbage k) by the spherical lower bound k/k0 >~ cosh(x / (a k0))
+  const bool hs = extsheet && (!(k / c.k0 <= HS_K) || !(std::cosh(std::fabs(x) / (c.a * c.k0)) <= HS_K));
   const std::string HSL = hs ? "/extendp-high-scale" : "";
   const uint64_t pf_primary = c.panic_f;
   bool in_ext_domain = !c.ext() || (lat >= 0 && ad <= 90 && dlon >= 0) || (lat < 0 && lat > -90 && dlon >= br && dlon <= 90);
   if (c.ext() && !in_ext_domain) { ctx.event("extendp: point outside the documented extendp domain, not judged"); return; }
-  const bool at_bp = c.exact() && std::fabs(lat) < 1e-300 && std::fabs(ad - br) <= 2e-9;   // within 2e-9 deg (0.2 mm) of the branch point
+  const bool at_bp = c.exact() && std::hypot(lat, ad - br) <= 2e-8;   // within 2e-8 deg (2 mm) of the branch point
   c.panic_f = pf_primary; judge_panic(ctx, c, true, hs, true, cls, in, at_bp);   // series Forward has no Newton iteration; exact: whole domain is documented
   bool on_cut = c.exact() && !c.ext() && lat == 0 && ad >= br && ad <= 180 - br;   // the cut itself: y is two-valued
   // ---- REF
@@ -259,7 +260,8 @@ static void check_point(Ctx& ctx, const Cfg& c, double lon0, double lat, double 
     } else ctx.event("series: outside judged strip (|dlon|>75 or r>R_MAX): laws only");
   }
   // ---- far side of the equator: the sign of y at lat = +-0 is a convention; the two implementations must share it
-  if (lat == 0 && ad > 90 && ad < 180 && !c.ext() && c.f > 0 && c.f <= 0.05 && 180 - ad <= 60) {
+  if (lat == 0 && ad > 90 && ad < 180 && !c.ext() && c.f > 0 && c.f <= 0.05 && 180 - ad <= 60 &&
+      c.f / (2 - c.f) * std::exp(2 * std::atanh(std::sin((180 - ad) * DEGd))) <= R_MAX) {
     double xs, ys, gs, ks;
     if (c.exact()) { TransverseMercator sib(c.a, c.f, c.k0); sib.Forward(lon0, lat, lon, xs, ys, gs, ks); }
     else { TransverseMercatorExact sib(c.a, c.f, c.k0); sib.Forward(lon0, lat, lon, xs, ys, gs, ks); }
@@ -496,7 +498,7 @@ static void sec_reverse_xy(Ctx& ctx, uint64_t idx) {
   J in = J().obj("cfg", c.j()).f("lon0", lon0).f("x", x).f("y", y).str("x_hex", hexf(x)).str("y_hex", hexf(y));
   if (ctx.want_sample(cls_s)) ctx.sample(cls_s, in);
   double la, lo, g, k; c.Reverse(lon0, x, y, la, lo, g, k);
-  const bool hs = c.ext() && y < 0 && !(k / c.k0 <= HS_K);
+  const bool hs = c.ext() && y < 0 && (!(k / c.k0 <= HS_K) || !(std::cosh(std::fabs(x) / ak) <= HS_K));
   judge_panic(ctx, c, false, hs, c.exact() || std::fabs(x) < 0.65 * ak, cls_s, in);
   if (!(std::isfinite(la) && std::isfinite(lo) && std::isfinite(g) && std::isfinite(k))) {
     // the series may overflow far outside its domain (cosh(2 eta) etc. are finite here, so treat as violation only when judged)
@@ -748,7 +750,8 @@ static void sec_selftest(Ctx& ctx, uint64_t idx) {
     ctx.obs("selftest: meridian by phi-quadrature vs zeta-plane integral |dy|/a", (double)(fabsq(c0.y - v0.y) / A)); }
   // (g) reverse o forward
   { Q la, lo, g, k;
-    if (!R.reverse(z.x, z.y, la, lo, g, k) || !(fabsq(la - lat) <= 1e-19Q / (Q)std::max(1e-3, std::cos(lat * DEGd))) || !(fabsq(lo - dl) * cosq((Q)lat * ref::deg<Q>()) <= 1e-19Q) || !(fabsq(k / z.k - 1) <= 1e-19Q))
+    if (z.mindist < 0.1 && !R.reverse(z.x, z.y, la, lo, g, k)) ctx.event("selftest: REF reverse not converged within 0.1 rad of the branch point (its Newton leaves the validity strip)");
+    else if (!R.reverse(z.x, z.y, la, lo, g, k) || !(fabsq(la - lat) <= 1e-19Q / (Q)std::max(1e-3, std::cos(lat * DEGd))) || !(fabsq(lo - dl) * cosq((Q)lat * ref::deg<Q>()) <= 1e-19Q) || !(fabsq(k / z.k - 1) <= 1e-19Q))
       ctx.herr("ref_tm: reverse(forward) != identity" + at);
     else ctx.obs("selftest: reverse(forward) |dlat|+|dlon| [deg]", (double)(fabsq(la - lat) + fabsq(lo - dl))); }
   // (h) far-side reflection (y -> 2 M(pi/2) - y, x -> x, gamma -> 180 - gamma)
